@@ -240,6 +240,42 @@ def L_marker_collision():
     return [(f"{PFX}roundtrip-any-key.Dict", AXIOMS, RTc(t, h, prem))]
 
 
+# ---- L7: list lemmas used by the loop over dataclass fields (insertion-ordered dict stores)
+rk = z3.Const("r!k", KV)
+
+
+def DS(e, k, xv): return z3.Implies(z3.Not(HASKEY(e, k)), DSET(e, k, xv) == APP(e, KV.kcons(k, xv, KV.knil)))
+def MA(d, r): return SERKV(APP(d, r), b) == APP(SERKV(d, b), SERKV(r, b))
+def HA(a, r, k): return HASKEY(APP(a, r), k) == z3.Or(HASKEY(a, k), HASKEY(r, k))
+def DA(a, k, xv, r): return z3.Implies(DISTINCT(APP(a, KV.kcons(k, xv, r))), z3.Not(HASKEY(a, k)))
+def SA(a, k, xv, r): return z3.Implies(SEROKKV(APP(a, KV.kcons(k, xv, r))), SEROK(xv))
+def ME(l, e): return z3.Implies(z3.And(MEMV(l, e), SEROKL(l)), SEROK(e))
+def MK(kv, k, e): return z3.Implies(z3.And(MEMKV(kv, k, e), SEROKKV(kv)), SEROK(e))
+
+
+def L_lists():
+    c = KV.kcons(st, x, xk)
+    return [(f"{PFX}store-absent-key-appends.knil", [], DS(KV.knil, k0, y)),
+            (f"{PFX}store-absent-key-appends.kcons", [DS(xk, k0, y)], DS(c, k0, y)),
+            (f"{PFX}map-append.knil", [], MA(KV.knil, rk)),
+            (f"{PFX}map-append.kcons", [MA(xk, rk)], MA(c, rk)),
+            (f"{PFX}key-of-append.knil", [], HA(KV.knil, rk, k0)),
+            (f"{PFX}key-of-append.kcons", [HA(xk, rk, k0)], HA(c, rk, k0)),
+            (f"{PFX}distinct-append.knil", [], DA(KV.knil, k0, y, rk)),
+            (f"{PFX}distinct-append.kcons", [DA(xk, k0, y, rk), HA(xk, KV.kcons(k0, y, rk), st)], DA(c, k0, y, rk)),
+            (f"{PFX}encodable-append.knil", [], SA(KV.knil, k0, y, rk)),
+            (f"{PFX}encodable-append.kcons", [SA(xk, k0, y, rk)], SA(c, k0, y, rk)),
+            (f"{PFX}encodable-member.nil", [], ME(VL.nil, y)),
+            (f"{PFX}encodable-member.cons", [ME(xl, y)], ME(VL.cons(x, xl), y)),
+            (f"{PFX}encodable-entry.knil", [], MK(KV.knil, k0, y)),
+            (f"{PFX}encodable-entry.kcons", [MK(xk, k0, y)], MK(c, k0, y))]
+
+
+def L_wf_encodable():
+    return schema("wellformed-is-encodable", lambda t: z3.Implies(WF(t), SEROK(t)), lambda t: z3.Implies(WFL(t), SEROKL(t)),
+                  lambda t: z3.Implies(WFKV(t), SEROKKV(t)))
+
+
 def all_lemmas():
-    ls = L_json() + L_idem() + L_keys() + L_keys_members() + L_cov() + L_binary() + L_agree() + L_roundtrip() + L_marker_collision()
+    ls = L_json() + L_idem() + L_keys() + L_keys_members() + L_cov() + L_binary() + L_agree() + L_roundtrip() + L_lists() + L_wf_encodable() + L_marker_collision()
     return [(i, [norm(x_) for x_ in hy], norm(g)) for (i, hy, g) in ls]
